@@ -193,6 +193,9 @@ impl Property for C12 {
             })
         }))
     }
+    fn fuzz_plans(&self) -> Vec<(&'static str, u64)> {
+        vec![("wire_struct", 20000)]
+    }
     fn gen(&self, c: &mut Choices) -> Case {
         Case::Text(gen_case(c, None))
     }
